@@ -395,3 +395,45 @@ def run_rule(res, facts, tier):
             else:
                 report('list', 'xsl:number ' + site, 'formatNumberList yields %r, XSLT 1.0 7.7.1 requires %r' % (got, want), common.file_line(fnl))
     return r
+
+
+PUNCT_FORMATS = ['.', '--', ' ', ':', '*', '-' * 40, '.-', '()', '. ']
+
+
+def run_c03_rule(res, facts, tier):
+    """C03-R16: a format made of punctuation only (one non-alphanumeric token that is first and last at once) is where the token walk of formatNumberList has no
+    alphanumeric token to stop at.  The function is interpreted on such formats: it must not read outside its token vector or its buffers (the vector model faults on any
+    index or iterator outside its bounds), and what it builds is the numbers in the default format with the token before and / or after them (7.7.1 leaves open which when the
+    token is both the first and the last one)."""
+    r = res.rule('C03-R16', 'xsl:number with a format of punctuation only: formatNumberList interpreted on one-token non-alphanumeric formats (also 40 characters long) x lists of one '
+                 'to four numbers: no read outside the token vector or the buffers, and the result is the numbers in the default format with the token as prefix and / or suffix', floor=40)
+    w = NWorld(facts)
+    c = [a for a in facts.asts('ElemNumber::formatNumberList', must=False) if a.get('body') is not None]
+    if len(c) != 1:
+        raise AnalysisBroken('ElemNumber::formatNumberList: %d bodies' % len(c))
+    fnl = c[0]
+    this = Obj(NS + 'ElemNumber', {'m_format_avt': Obj('avt', {})})
+    for fmt in PUNCT_FORMATS:
+        for lst in LISTS[:6]:
+            w.format = fmt
+            w.calls = 0
+            out = Str()
+            site = 'format="%s", numbers %s' % (fmt if len(fmt) < 10 else fmt[:3] + '... (%d characters)' % len(fmt), lst)
+            try:
+                m = OMachine(w, {}, this)
+                m.fuel = 60000
+                m.run_body(fnl, ['ECTX', Vec(list(lst)), len(lst), out], this)
+                got = out.text()
+            except Fault as f:
+                r.violation('xsl:number, format of punctuation only: read outside a vector', '%s: %s' % (site, f), common.file_line(fnl)); continue
+            except Reject:
+                r.ok(site, 'an error is reported'); continue
+            except Unsupported as u:
+                raise AnalysisBroken('formatNumberList outside the interpreted subset on %s: %s' % (site, u))
+            body = '.'.join(str(x) for x in lst)
+            if got in (fmt + body, body + fmt, fmt + body + fmt, body):
+                r.ok(site, got if len(got) < 40 else got[:20] + '...')
+            else:
+                r.violation('xsl:number, format of punctuation only: result', '%s: formatNumberList yields %r; expected the numbers %r with the token before and / or after' % (site, got, body),
+                            common.file_line(fnl))
+    return r
